@@ -108,6 +108,8 @@ class ADWIN(StreamingDetector):
 
         X, _, _ = super()._validate_input(X, None, None)
         if len(X.shape) > 1 and X.shape[1] != 1:
+            # only this refused input can have set these: forget them again
+            self._input_cols, self._input_col_dim = None, None
             raise ValueError("ADWIN should only be used to monitor 1 variable.")
         super().update(X, None, None)
 
